@@ -778,7 +778,7 @@ func (x *Ctx) uint64LoopRule(r *core.Result, rs *core.RuleStat) {
 		if !ok || len(ret.Results) != 3 || !isNilConst(ret.Results[2]) {
 			continue
 		}
-		if !x.isAccOrZero(ret.Results[0], loops[0].acc, map[ssa.Value]bool{}) {
+		if !x.isAccOrZero(ret.Results[0], loops[0].acc, map[ssa.Value]bool{}) && !singleDigitReturn(ret, loops[0].acc) {
 			r.Fail(rs, "ReadUint64:return-value", x.W.Pos(ret.Pos()), "a success return does not return the accumulated value (or the literal 0 for the token `0`)")
 			okRet = false
 		}
@@ -1050,4 +1050,46 @@ func (x *Ctx) constArgEverywhere(par *ssa.Parameter) (*big.Int, bool) {
 		}
 	}
 	return best, best != nil
+}
+
+// singleDigitReturn: a one-digit fast path — the value returned is data[s] - '0' for the very position s at which the
+// accumulating loop would start, and the offset returned is s + 1 (that this offset is the end of the number is R05a's
+// business; with it, the number is that one digit).
+func singleDigitReturn(ret *ssa.Return, acc *ssa.Phi) bool {
+	if len(ret.Results) < 2 || digitShape(ret.Results[0]) != "" {
+		return false
+	}
+	sub := ret.Results[0].(*ssa.BinOp)
+	xv := sub.X
+	if cv, ok := xv.(*ssa.Convert); ok {
+		xv = cv.X
+	}
+	idx := xv.(*ssa.UnOp).X.(*ssa.IndexAddr).Index
+	// the start: the entry value of the loop's cursor (a phi of the accumulator's block stepping by one)
+	var start ssa.Value
+	for _, ins := range acc.Block().Instrs {
+		ph, ok := ins.(*ssa.Phi)
+		if !ok {
+			break
+		}
+		if !isIntT(ph.Type()) {
+			continue
+		}
+		for i, e := range ph.Edges {
+			if add, ok := e.(*ssa.BinOp); ok && add.Op == token.ADD && add.X == ssa.Value(ph) {
+				if k, ok := constBig(add.Y); ok && k.Int64() == 1 {
+					start = ph.Edges[1-i]
+				}
+			}
+		}
+	}
+	if start == nil || len(acc.Edges) != 2 || idx != start {
+		return false
+	}
+	off, ok := ret.Results[1].(*ssa.BinOp)
+	if !ok || off.Op != token.ADD || off.X != start {
+		return false
+	}
+	k, ok := constBig(off.Y)
+	return ok && k.Int64() == 1
 }
